@@ -163,6 +163,9 @@ func newType(ty an.Type) Type {
 					return Builtin{t: ty, name: basicTypeName(basic)}
 				}
 			} else if time, ok := an.NewTime(elem.Type()); ok {
+				if named, isNamed := time.(*an.Named); isNamed { // type MyDate time.Time
+					time = named.Underlying
+				}
 				tyT := time.(*an.Time)
 				if tyT.IsDate {
 					return Builtin{t: ty, name: "date"}
